@@ -24,7 +24,7 @@ use crate::graph::{canon, par_map};
 
 use chain::Env;
 use model::{Alphabet, Model, Op, Step};
-use oracle::{Amt, Chg, Conf, Entry, LockPol, Pools, Rcpt, Req};
+use oracle::{Amt, Chg, Conf, Entry, Lattice, LockPol, Pools, Rcpt, Req};
 
 fn env() -> &'static Env {
     static ENV: OnceLock<Env> = OnceLock::new();
@@ -105,7 +105,8 @@ fn searches(tier: Tier) -> (Vec<Search>, f64) {
 }
 
 struct Node {
-    snap: Arc<Snapshot>,
+    /// kept only for states that will be expanded
+    snap: Option<Arc<Snapshot>>,
     model: Model,
     start: usize,
     history: Vec<Op>,
@@ -120,8 +121,8 @@ fn state_key(w: &Wallet, m: &Model, start: usize) -> u128 {
     mc_core::key128(&k)
 }
 
-fn case_json(start: usize, ops: &[Op], req: Option<&Req>, thorough: bool) -> Value {
-    json!({"start": start, "ops": ops, "req": req, "thorough": thorough})
+fn case_json(start: usize, ops: &[Op], req: Option<&Req>, level: usize) -> Value {
+    json!({"start": start, "ops": ops, "req": req, "lattice": level})
 }
 
 fn ops_key(env: &Env, start: usize, ops: &[Op]) -> String {
@@ -144,8 +145,8 @@ fn ops_key(env: &Env, start: usize, ops: &[Op]) -> String {
 }
 
 /// Re-execute a case from scratch: `ops` from start state `start`, then either the single request
-/// `req` or (when absent) the whole lattice.
-fn check_case(start: usize, ops: &[Op], req: Option<&Req>, thorough: bool) -> Result<(), String> {
+/// `req` or (when absent) the whole lattice of the given level.
+fn check_case(start: usize, ops: &[Op], req: Option<&Req>, level: usize) -> Result<(), String> {
     let env = env();
     let mut w = db::new_wallet(&env.u, uni::RETENTION, false);
     db::restore(w.db.conn_mut(), &env.starts[start].1);
@@ -170,7 +171,7 @@ fn check_case(start: usize, ops: &[Op], req: Option<&Req>, thorough: bool) -> Re
             oracle::run_request_with(env, &mut w, &m, &ledger, r, &mut cache, max_paid).map(|_| ())
         }
         None => {
-            let lat = oracle::lattice(thorough);
+            let lat = oracle::lattice(level);
             let (_, fails, _) = oracle::eval_state(env, &mut w, &m, &lat);
             match fails.into_iter().next() {
                 Some((r, msg)) => Err(format!("[{}] {msg}", r.key())),
@@ -187,15 +188,34 @@ pub fn replay(kind: &str, case: &Value) -> Result<(), String> {
     let start = case["start"].as_u64().ok_or("case.start")? as usize;
     let ops: Vec<Op> = serde_json::from_value(case["ops"].clone()).map_err(|e| e.to_string())?;
     let req: Option<Req> = serde_json::from_value(case["req"].clone()).map_err(|e| e.to_string())?;
-    let thorough = case["thorough"].as_bool().unwrap_or(false);
-    check_case(start, &ops, req.as_ref(), thorough)
+    let level = case["lattice"].as_u64().unwrap_or(1) as usize;
+    check_case(start, &ops, req.as_ref(), level)
 }
 
 struct Found {
     start: usize,
     ops: Vec<Op>,
     req: Option<Req>,
+    level: usize,
     msg: String,
+}
+
+fn dump_checkpoints() {
+    let env = env();
+    let mut w = db::new_wallet(&env.u, uni::RETENTION, false);
+    for (name, ops) in [("full", vec![]), ("advance1", vec![Op::Advance { k: 1 }]), ("advance41", vec![Op::Advance { k: 41 }]), ("rewind1", vec![Op::Rewind { back: 1 }]), ("adv1,adv1", vec![Op::Advance { k: 1 }, Op::Advance { k: 1 }])] {
+        db::restore(w.db.conn_mut(), &env.starts[0].1);
+        w.refresh_accounts();
+        let mut m = Model::start(env, 0);
+        for op in &ops {
+            if let Ok(Step::Done(n, _)) = model::apply(env, &mut w, &m, op) {
+                m = n;
+            }
+        }
+        for p in ["sapling", "orchard", "ironwood"] {
+            eprintln!("{name} {p}: {:?}", db::query_rows(w.db.conn(), &format!("SELECT checkpoint_id, position FROM {p}_tree_checkpoints ORDER BY checkpoint_id")).iter().map(|r| r.replace('|', "@")).collect::<Vec<_>>().join(" "));
+        }
+    }
 }
 
 fn profile() {
@@ -245,7 +265,7 @@ fn profile() {
     });
     db::restore(w.db.conn_mut(), &env.starts[0].1);
     w.refresh_accounts();
-    let lat = oracle::lattice(false);
+    let lat = oracle::lattice(1);
     let ledger = m.ledger(env);
     for r in lat.reqs.iter().step_by(9) {
         let t0 = Instant::now();
@@ -256,58 +276,129 @@ fn profile() {
         }
         eprintln!("{:.2} ms  {}  -> {:?}", t0.elapsed().as_secs_f64() * 1000.0 / 5.0, r.key(), res.unwrap().map(|x| x.outcomes.first().cloned()));
     }
+    {
+        use zcash_client_backend::data_api::wallet::input_selection::{LockFilter, LockedInputPolicy};
+        use zcash_client_backend::data_api::wallet::ConfirmationsPolicy;
+        use zcash_client_backend::data_api::{InputSource, TargetValue, WalletRead};
+        use zcash_protocol::value::Zatoshis;
+        use zcash_protocol::ShieldedPool;
+        let acct = w.acct_a;
+        let enc = env.u.keys.ufvk_a.encode(&env.u.network);
+        t("ufvk decode", &mut || {
+            let _ = zcash_keys::keys::UnifiedFullViewingKey::decode(&env.u.network, &enc).unwrap();
+        });
+        t("get_target_and_anchor_heights", &mut || {
+            let _ = w.db.get_target_and_anchor_heights(std::num::NonZeroU32::MIN).unwrap();
+        });
+        for (name, pools) in [("sapling", vec![ShieldedPool::Sapling]), ("all", vec![ShieldedPool::Sapling, ShieldedPool::Orchard, ShieldedPool::Ironwood])] {
+            let mut cnt = 0;
+            t(&format!("select_spendable_notes AtLeast 100k {name}"), &mut || {
+                let r = w.db.select_spendable_notes(acct, TargetValue::AtLeast(Zatoshis::const_from_u64(100_000)), &pools, (uni::T0 + 1).into(), ConfirmationsPolicy::MIN, &[], LockFilter::Policy(&LockedInputPolicy::Exclude)).unwrap();
+                cnt = r.sapling().len() + r.orchard().len();
+            });
+            eprintln!("   -> {cnt} notes");
+        }
+    }
     eprintln!("db size: {:?}", db::query_rows(w.db.conn(), "SELECT page_count * page_size FROM pragma_page_count(), pragma_page_size()"));
 }
 
-pub fn run(args: &Args) -> i32 {
-    if std::env::var("C08_PROFILE").is_ok() {
-        profile();
-        return 0;
-    }
-    let run = Run::new(args, "model_checking");
-    let pr = params(args.tier);
-    let t0 = Instant::now();
-    let env = env();
-    let t_setup = t0.elapsed().as_secs_f64();
-    if std::env::var("VERIF_PROGRESS").is_ok() {
-        eprintln!("setup {t_setup:.1}s");
-    }
-    let al = alphabet(pr.thorough);
-    let lat = oracle::lattice(pr.thorough);
-    run.set_rule(&format!(
-        "explicit-state BFS on the real SQLite wallet from {} start states (fully scanned / scanned with a gap at the start / scanned to a pre-NU6.3 tip) of the C08 universe; operations: lock_outputs(owner, note set, tip+1|tip+50), \
-         unlock_output, clear_locked_outputs, store_transactions_to_be_sent(real pending transaction), Advance(k blocks), Mine(pending), truncate_to_height, FillGap, proposals with a lock request; \
-         states matched on the canonical logical dump of the database + reference model; in every distinct state the request lattice [{}] is sent to the real proposal functions; \
-         a case is one (state, request) pair; it is distinct by (state key, request) and non-trivial because the state was reached through the real wallet API and the request was answered by the real selector",
-        pr.starts.len(),
-        lat.describe
-    ));
-    run.assume("confirmations are counted as in the ConfirmationsPolicy documentation (blocks since and including the mining block = target height - mined height); notes received under the internal key scope need `trusted` confirmations, all other receipts `untrusted` (no transaction of the universe is user-trusted, none shields transparent funds)");
-    run.assume("a lock is active while lock_expiry_height >= target height = chain tip + 1 (data_api/locking.rs); a stored transaction is unexpired while expiry_height >= target height (wallet/common.rs tx_unexpired_condition)");
-    run.assume("pending transactions are real Sapling-only transactions built once by create_proposed_transactions with the sapling mock provers and re-injected through store_transactions_to_be_sent; they spend no Orchard/Ironwood/transparent inputs (DESIGN.md stated bound)");
-    run.assume("the wallet holds no transparent funds: propose_shielding / propose_shielding_coinbase and transparent spend policies are not covered; any transparent input in a proposal is reported");
-    run.assume("the reference upper bound of spendable value counts every unspent, confirmed, not pending-spent, unlocked-or-overridable note of the permitted pools including dust; minimum fee = 10_000 (ZIP 317)");
-    run.assume("the anchor of a step must not be above target height minus the policy's trusted confirmations (ConfirmationsPolicy::anchor_height documentation); a lower (bucketed, ZIP 318) anchor is accepted");
+#[derive(Default)]
+struct Totals {
+    states: u64,
+    transitions: u64,
+    evals: u64,
+    evaluated_states: u64,
+}
 
-    let failures: Mutex<Vec<Found>> = Mutex::new(vec![]);
-    let outcomes: Mutex<BTreeMap<String, u64>> = Mutex::new(BTreeMap::new());
-    let add_outs = |o: Vec<String>| {
-        let mut g = outcomes.lock().unwrap();
+struct Shared<'a> {
+    env: &'a Env,
+    lats: [Lattice; 3],
+    failures: Mutex<Vec<Found>>,
+    outcomes: Mutex<BTreeMap<String, u64>>,
+    /// state key -> highest lattice level already evaluated there (+1), across all searches
+    evaluated: Mutex<BTreeMap<u128, usize>>,
+    t0: Instant,
+}
+
+impl Shared<'_> {
+    fn add_outs(&self, o: Vec<String>) {
+        let mut g = self.outcomes.lock().unwrap();
         for x in o {
             *g.entry(x).or_insert(0) += 1;
         }
-    };
+    }
+
+    /// Evaluate the lattice of `level` in the state held by `w` unless an equal or larger lattice
+    /// was already evaluated in that state. Returns (number of requests, violations).
+    fn evaluate(&self, w: &mut Wallet, m: &Model, key: u128, level: usize, start: usize, ops: &[Op]) -> (u64, bool) {
+        {
+            let mut g = self.evaluated.lock().unwrap();
+            if g.get(&key).is_some_and(|l| *l > level) {
+                return (0, false);
+            }
+            g.insert(key, level + 1);
+        }
+        if std::env::var("C08_NOEVAL").is_ok() {
+            return (0, false); // sizing runs only
+        }
+        let env = self.env;
+        let (o, fails, n) = oracle::eval_state(env, w, m, &self.lats[level]);
+        self.add_outs(o);
+        let mut tags = vec![];
+        if m.locks.values().any(|(_, e)| *e >= m.target()) {
+            tags.push("state:has-active-lock");
+        }
+        if m.locks.values().any(|(_, e)| *e < m.target()) {
+            tags.push("state:has-expired-lock");
+        }
+        if m.locks.values().any(|(_, e)| *e == m.target()) {
+            tags.push("state:lock-expiry-equals-target");
+        }
+        if (0..env.pend.len()).any(|p| m.pending_active(env, p)) {
+            tags.push("state:has-unexpired-pending");
+        }
+        if (0..env.pend.len()).any(|p| m.stored.contains(&p) && m.chain.mined_at(p).is_none() && env.pend[p].expiry < m.target()) {
+            tags.push("state:has-expired-pending");
+        }
+        if (0..env.pend.len()).any(|p| m.stored.contains(&p) && m.chain.mined_at(p).is_none() && env.pend[p].expiry == m.target()) {
+            tags.push("state:pending-expiry-equals-target");
+        }
+        if (0..env.pend.len()).any(|p| m.chain.mined_at(p).is_some()) {
+            tags.push("state:pending-mined");
+        }
+        if (0..env.pend.len()).any(|p| m.stored.contains(&p) && m.chain.mined_at(p).is_none() && m.seen.iter().any(|k| matches!(k, chain::NoteKey::D(q, _) if *q == p)) && m.tip < env.pend[p].build_target) {
+            tags.push("state:pending-unmined-by-rewind");
+        }
+        tags.push(if m.target() < uni::N63 { "state:target-pre-nu6.3" } else { "state:target-post-nu6.3" });
+        if m.scanned_from > uni::F {
+            tags.push("state:scan-gap-open");
+        }
+        self.add_outs(tags.into_iter().map(String::from).collect());
+        let bad = !fails.is_empty();
+        for (r, msg) in fails {
+            self.failures.lock().unwrap().push(Found { start, ops: ops.to_vec(), req: Some(r), level, msg });
+        }
+        (n, bad)
+    }
+}
+
+/// One level-synchronous parallel BFS. Returns a JSON description and updates the totals.
+fn search(sh: &Shared, sp: &Search, deadline_s: f64, tot: &mut Totals) -> (Value, Option<String>) {
+    let env = sh.env;
+    let al = alphabet(sp.thorough_alphabet);
+    let over = || sh.t0.elapsed().as_secs_f64() > deadline_s;
     let evals = AtomicU64::new(0);
+    let evaluated_states = AtomicU64::new(0);
     let transitions = AtomicU64::new(0);
     let skipped = AtomicU64::new(0);
-    let over = || t0.elapsed().as_secs_f64() > pr.wall_cap_s;
     let mut seen: BTreeSet<u128> = BTreeSet::new();
     let mut per_depth: Vec<u64> = vec![];
     let mut states = 0u64;
+    let starts: Vec<usize> = (0..env.starts.len()).collect();
+    let max_depth = *sp.depth_by_start.iter().max().unwrap();
 
-    // depth 0: the start states
-    let start_nodes: Vec<Option<(u128, Node)>> = par_map(
-        &pr.starts,
+    let start_nodes: Vec<(u128, Node)> = par_map(
+        &starts,
         || db::new_wallet(&env.u, uni::RETENTION, false),
         |w, &si| {
             db::restore(w.db.conn_mut(), &env.starts[si].1);
@@ -315,45 +406,48 @@ pub fn run(args: &Args) -> i32 {
             let m = Model::start(env, si);
             let key = state_key(w, &m, si);
             if let Err(msg) = model::check_locked_outputs(env, w, &m) {
-                failures.lock().unwrap().push(Found { start: si, ops: vec![], req: None, msg });
+                sh.failures.lock().unwrap().push(Found { start: si, ops: vec![], req: None, level: 0, msg });
             }
             let snap = Arc::new(db::snapshot(w.db.conn()));
-            let (o, fails, n) = oracle::eval_state(env, w, &m, &lat);
-            evals.fetch_add(n, Ordering::Relaxed);
-            add_outs(o);
-            add_outs(vec![format!("state:start:{}", env.starts[si].0)]);
-            for (r, msg) in fails {
-                failures.lock().unwrap().push(Found { start: si, ops: vec![], req: Some(r), msg });
+            let (n, _) = sh.evaluate(w, &m, key, (sp.level_at_depth)(0), si, &[]);
+            if n > 0 {
+                evaluated_states.fetch_add(1, Ordering::Relaxed);
+                sh.add_outs(vec![format!("state:start:{}", env.starts[si].0)]);
             }
-            Some((key, Node { snap, model: m, start: si, history: vec![] }))
+            evals.fetch_add(n, Ordering::Relaxed);
+            (key, Node { snap: Some(snap), model: m, start: si, history: vec![] })
         },
     );
     let mut frontier: Vec<Node> = vec![];
-    for (k, n) in start_nodes.into_iter().flatten() {
+    for (k, n) in start_nodes {
         if seen.insert(k) {
             states += 1;
             frontier.push(n);
         }
     }
     let mut cap: Option<String> = None;
-    let noeval = std::env::var("C08_NOEVAL").is_ok(); // sizing runs only
     let mut depth = 0usize;
     let mut completed_depth = 0usize;
     while !frontier.is_empty() {
         per_depth.push(frontier.len() as u64);
-        if depth >= pr.max_depth {
+        if depth >= max_depth {
             break;
         }
         if over() {
-            cap = Some(format!("wall cap {}s reached before expanding depth {depth} ({} frontier states unexpanded)", pr.wall_cap_s, frontier.len()));
+            cap = Some(format!("{}: wall budget reached before expanding depth {depth} ({} frontier states unexpanded)", sp.name, frontier.len()));
             break;
         }
-        if failures.lock().unwrap().len() >= 12 {
-            cap = Some("stopped after 12 failures".into());
+        if sh.failures.lock().unwrap().len() >= 12 {
+            cap = Some(format!("{}: stopped after 12 failures", sp.name));
             break;
         }
         // phase 1: execute every enabled transition, compute the key of its target state
-        let items: Vec<(usize, Op)> = frontier.iter().enumerate().flat_map(|(i, n)| model::enabled(env, &al, &n.model).into_iter().map(move |op| (i, op))).collect();
+        let items: Vec<(usize, Op)> = frontier
+            .iter()
+            .enumerate()
+            .filter(|(_, n)| depth < sp.depth_by_start[n.start])
+            .flat_map(|(i, n)| model::enabled(env, &al, &n.model).into_iter().map(move |op| (i, op)))
+            .collect();
         let keys: Vec<Option<u128>> = par_map(
             &items,
             || db::new_wallet(&env.u, uni::RETENTION, false),
@@ -363,22 +457,22 @@ pub fn run(args: &Args) -> i32 {
                     return None;
                 }
                 let src = &frontier[*i];
-                db::restore(w.db.conn_mut(), &src.snap);
+                db::restore(w.db.conn_mut(), src.snap.as_ref().expect("expandable nodes keep their snapshot"));
                 w.refresh_accounts();
                 transitions.fetch_add(1, Ordering::Relaxed);
                 match model::apply(env, w, &src.model, op) {
                     Err(msg) => {
                         let mut ops = src.history.clone();
                         ops.push(op.clone());
-                        failures.lock().unwrap().push(Found { start: src.start, ops, req: None, msg });
+                        sh.failures.lock().unwrap().push(Found { start: src.start, ops, req: None, level: 0, msg });
                         None
                     }
                     Ok(Step::Refused(o)) => {
-                        add_outs(o.into_iter().map(|x| format!("op:{x}")).collect());
+                        sh.add_outs(o.into_iter().map(|x| format!("op:{x}")).collect());
                         None
                     }
                     Ok(Step::Done(m, o)) => {
-                        add_outs(o.into_iter().map(|x| format!("op:{x}")).collect());
+                        sh.add_outs(o.into_iter().map(|x| format!("op:{x}")).collect());
                         Some(state_key(w, &m, src.start))
                     }
                 }
@@ -394,69 +488,40 @@ pub fn run(args: &Args) -> i32 {
             }
         }
         if std::env::var("VERIF_PROGRESS").is_ok() {
-            eprintln!("depth {depth}: frontier {} transitions {} new states {} elapsed {:.1}s", frontier.len(), items.len(), chosen.len(), t0.elapsed().as_secs_f64());
+            eprintln!("{} depth {depth}: frontier {} transitions {} new states {} elapsed {:.1}s", sp.name, frontier.len(), items.len(), chosen.len(), sh.t0.elapsed().as_secs_f64());
         }
-        // phase 2: re-create each new state, snapshot it, evaluate the request lattice in it
+        // phase 2: re-create each new state, snapshot it (if it will be expanded), evaluate the lattice in it
+        let level = (sp.level_at_depth)(depth + 1);
         let next: Vec<Option<Node>> = par_map(
             &chosen,
             || db::new_wallet(&env.u, uni::RETENTION, false),
-            |w, (i, op, _)| {
+            |w, (i, op, key)| {
                 if over() {
                     skipped.fetch_add(1, Ordering::Relaxed);
                     return None;
                 }
                 let src = &frontier[*i];
-                db::restore(w.db.conn_mut(), &src.snap);
+                db::restore(w.db.conn_mut(), src.snap.as_ref().expect("expandable nodes keep their snapshot"));
                 w.refresh_accounts();
                 let mut ops = src.history.clone();
                 ops.push(op.clone());
                 let m = match model::apply(env, w, &src.model, op) {
                     Ok(Step::Done(m, _)) => m,
                     _ => {
-                        failures.lock().unwrap().push(Found { start: src.start, ops, req: None, msg: "transition did not reproduce when re-executed (non-determinism)".into() });
+                        sh.failures.lock().unwrap().push(Found { start: src.start, ops, req: None, level: 0, msg: "transition did not reproduce when re-executed (non-determinism)".into() });
                         return None;
                     }
                 };
                 if let Err(msg) = model::check_locked_outputs(env, w, &m) {
-                    failures.lock().unwrap().push(Found { start: src.start, ops, req: None, msg });
+                    sh.failures.lock().unwrap().push(Found { start: src.start, ops, req: None, level: 0, msg });
                     return None;
                 }
-                let snap = Arc::new(db::snapshot(w.db.conn()));
-                let (o, fails, n) = if noeval { (vec![], vec![], 0) } else { oracle::eval_state(env, w, &m, &lat) };
+                let expand = depth + 1 < sp.depth_by_start[src.start];
+                let snap = expand.then(|| Arc::new(db::snapshot(w.db.conn())));
+                let (n, bad) = sh.evaluate(w, &m, *key, level, src.start, &ops);
                 evals.fetch_add(n, Ordering::Relaxed);
-                add_outs(o);
-                // state diversity
-                let mut tags = vec![];
-                if m.locks.values().any(|(_, e)| *e >= m.target()) {
-                    tags.push("state:has-active-lock");
-                }
-                if m.locks.values().any(|(_, e)| *e < m.target()) {
-                    tags.push("state:has-expired-lock");
-                }
-                if (0..env.pend.len()).any(|p| m.pending_active(env, p)) {
-                    tags.push("state:has-unexpired-pending");
-                }
-                if (0..env.pend.len()).any(|p| m.stored.contains(&p) && m.chain.mined_at(p).is_none() && env.pend[p].expiry < m.target()) {
-                    tags.push("state:has-expired-pending");
-                }
-                if (0..env.pend.len()).any(|p| m.stored.contains(&p) && m.chain.mined_at(p).is_none() && env.pend[p].expiry == m.target()) {
-                    tags.push("state:pending-expiry-equals-target");
-                }
-                if (0..env.pend.len()).any(|p| m.chain.mined_at(p).is_some()) {
-                    tags.push("state:pending-mined");
-                }
-                if m.target() < uni::N63 {
-                    tags.push("state:target-pre-nu6.3");
-                } else {
-                    tags.push("state:target-post-nu6.3");
-                }
-                if m.scanned_from > uni::F {
-                    tags.push("state:scan-gap-open");
-                }
-                add_outs(tags.into_iter().map(String::from).collect());
-                let bad = !fails.is_empty();
-                for (r, msg) in fails {
-                    failures.lock().unwrap().push(Found { start: src.start, ops: ops.clone(), req: Some(r), msg });
+                if n > 0 {
+                    evaluated_states.fetch_add(1, Ordering::Relaxed);
                 }
                 if bad {
                     return None; // do not explore beyond a violating state
@@ -471,48 +536,108 @@ pub fn run(args: &Args) -> i32 {
         frontier = nf;
         depth += 1;
         if sk > 0 {
-            cap = Some(format!("wall cap {}s reached while expanding depth {}: {sk} transition/state evaluations of that level not executed", pr.wall_cap_s, depth - 1));
+            cap = Some(format!("{}: wall budget reached while expanding depth {}: {sk} transition executions / state evaluations of that level not executed", sp.name, depth - 1));
             per_depth.push(frontier.len() as u64);
             break;
         }
         completed_depth = depth;
     }
+    if cap.is_none() && depth < max_depth && !frontier.is_empty() {
+        // cannot happen: the loop only ends at max depth, on a cap, or with an empty frontier
+        cap = Some(format!("{}: search ended at depth {depth} < {max_depth}", sp.name));
+    }
     let transitions = transitions.load(Ordering::Relaxed);
     let evals = evals.load(Ordering::Relaxed);
+    tot.states += states;
+    tot.transitions += transitions;
+    tot.evals += evals;
+    tot.evaluated_states += evaluated_states.load(Ordering::Relaxed);
+    let desc = json!({
+        "alphabet": {"locks": al.locks.iter().map(|(o, s, far)| format!("{}:{}:{}", ["X","Y"][*o as usize], model::LOCK_SETS[*s].join("+"), if *far {"tip+50"} else {"tip+1"})).collect::<Vec<_>>(),
+                     "unlock": "every (owner in {X,Y}, note holding a lock row)", "clear_locks": if al.clear_b { "A, B" } else { "A" },
+                     "store_pending": "P0, P1 (when their inputs are live and build target <= target height <= expiry)", "mine": "stored un-mined pending transactions",
+                     "advance": al.advance, "rewind_back": al.rewind, "fill_gap": true, "lock_taking_proposals": al.proposals.iter().map(|r| r.key()).collect::<Vec<_>>()},
+        "depth_by_start": {"full": sp.depth_by_start[0], "gap": sp.depth_by_start[1], "short": sp.depth_by_start[2]},
+        "lattice_level_by_depth": (0..=max_depth).map(|d| ["core", "quick", "thorough"][(sp.level_at_depth)(d)]).collect::<Vec<_>>(),
+        "completed_depth": completed_depth, "per_depth_new_states": per_depth,
+        "states": states, "states_evaluated_here": evaluated_states.load(Ordering::Relaxed), "transitions": transitions, "proposal_calls": evals, "capped": cap,
+    });
+    (desc, cap)
+}
+
+pub fn run(args: &Args) -> i32 {
+    if std::env::var("C08_PROFILE").is_ok() {
+        profile();
+        return 0;
+    }
+    if std::env::var("C08_CHECKPOINTS").is_ok() {
+        dump_checkpoints();
+        return 0;
+    }
+    let run = Run::new(args, "model_checking");
+    let (sps, wall_cap_s) = searches(args.tier);
+    let t0 = Instant::now();
+    let env = env();
+    let t_setup = t0.elapsed().as_secs_f64();
+    if std::env::var("VERIF_PROGRESS").is_ok() {
+        eprintln!("setup {t_setup:.1}s");
+    }
+    let sh = Shared { env, lats: [oracle::lattice(0), oracle::lattice(1), oracle::lattice(2)], failures: Mutex::new(vec![]), outcomes: Mutex::new(BTreeMap::new()), evaluated: Mutex::new(BTreeMap::new()), t0 };
+    run.set_rule(
+        "explicit-state BFS on the real SQLite wallet from 3 start states (fully scanned / scanned with a gap at the start / scanned to a pre-NU6.3 tip) of the C08 universe; operations: lock_outputs(owner, note set, tip+1|tip+50), \
+         unlock_output, clear_locked_outputs, store_transactions_to_be_sent(real pending transaction), Advance(k blocks), Mine(pending), truncate_to_height, FillGap, proposals with a lock request; \
+         states matched on the canonical logical dump of the database + reference model; in every distinct state a request lattice (sizes core/quick/thorough by depth, listed in section `lattices`) is sent to the real proposal \
+         functions; a case is one (state, request) pair: distinct by (state key, request), non-trivial because the state was reached through the real wallet API and the request answered by the real selector",
+    );
+    run.assume("confirmations are counted as in the ConfirmationsPolicy documentation (blocks since and including the mining block = target height - mined height); notes received under the internal key scope need `trusted` confirmations, all other receipts `untrusted` (no transaction of the universe is user-trusted, none shields transparent funds)");
+    run.assume("a lock is active while lock_expiry_height >= target height = chain tip + 1 (data_api/locking.rs); a stored transaction is unexpired while expiry_height >= target height (wallet/common.rs tx_unexpired_condition)");
+    run.assume("pending transactions are real Sapling-only transactions built once by create_proposed_transactions with the sapling mock provers and re-injected through store_transactions_to_be_sent; they spend no Orchard/Ironwood/transparent inputs (DESIGN.md stated bound)");
+    run.assume("the wallet holds no transparent funds: propose_shielding / propose_shielding_coinbase and transparent spend policies are not covered; any transparent input in a proposal is reported");
+    run.assume("the reference upper bound of spendable value counts every unspent, confirmed, not pending-spent, unlocked-or-overridable note of the permitted pools including dust; minimum fee = 10_000 (ZIP 317)");
+    run.assume("the anchor of a step must not be above target height minus the policy's trusted confirmations (ConfirmationsPolicy::anchor_height documentation); a lower (bucketed, ZIP 318) anchor is accepted");
+
+    let mut tot = Totals::default();
+    let mut descs = serde_json::Map::new();
+    let mut all_done = true;
+    for sp in &sps {
+        let now = t0.elapsed().as_secs_f64();
+        let deadline = now + (wall_cap_s - now).max(0.0) * sp.wall_share;
+        let (d, cap) = search(&sh, sp, deadline, &mut tot);
+        if let Some(c) = &cap {
+            run.cap_hit(c);
+            all_done = false;
+        }
+        descs.insert(sp.name.to_string(), d);
+    }
     if std::env::var("VERIF_PROGRESS").is_ok() {
         let c = oracle::CALLS.load(Ordering::Relaxed).max(1);
         eprintln!("proposal calls {c}: {:.2} ms/call inside the wallet, {:.2} ms/request overall", oracle::CALL_NS.load(Ordering::Relaxed) as f64 / 1e6 / c as f64, oracle::EVAL_NS.load(Ordering::Relaxed) as f64 / 1e6 / c as f64);
     }
-    run.add_graph(states, transitions, transitions + evals);
-    run.add_evaluations(evals + transitions);
-    run.eval_distinct_only(evals + states.saturating_sub(pr.starts.len() as u64));
-    let outcomes = outcomes.into_inner().unwrap();
+    run.add_graph(tot.states, tot.transitions, tot.transitions + tot.evals);
+    run.add_evaluations(tot.evals + tot.transitions);
+    run.eval_distinct_only(tot.evals + tot.evaluated_states);
+    let outcomes = std::mem::take(&mut *sh.outcomes.lock().unwrap());
     for (k, v) in &outcomes {
         run.outcome_n(k, *v);
     }
+    run.section("searches", Value::Object(descs));
     run.section(
-        "search",
+        "universe",
         json!({
-            "universe": {"first": uni::F, "tip": uni::T0, "nu6_3": uni::N63, "notes": env.u.notes.len(), "retention_interval": uni::RETENTION},
+            "first": uni::F, "tip": uni::T0, "nu6_3": uni::N63, "retention_interval": uni::RETENTION,
+            "notes": env.u.notes.iter().filter(|n| n.label.is_some()).map(|n| format!("{}:{:?}:{:?}:{:?}:{}@{}", n.label.unwrap(), n.owner, n.pool, n.scope, n.value, n.height)).collect::<Vec<_>>(),
             "start_states": env.starts.iter().map(|s| json!({"name": s.0, "scanned_from": s.2, "tip": s.3})).collect::<Vec<_>>(),
-            "pending": env.pend.iter().map(|p| json!({"spends": p.spends.iter().map(|i| env.u.notes[*i].label).collect::<Vec<_>>(), "build_target": p.build_target, "expiry": p.expiry, "fee": p.fee, "outputs": p.outs.iter().map(|o| json!({"owner": format!("{:?}", o.owner), "value": o.value})).collect::<Vec<_>>()})).collect::<Vec<_>>(),
-            "alphabet": {"locks": al.locks.iter().map(|(o, s, far)| format!("{}:{}:{}", ["X","Y"][*o as usize], model::LOCK_SETS[*s].join("+"), if *far {"tip+50"} else {"tip+1"})).collect::<Vec<_>>(),
-                         "advance": al.advance, "rewind_back": al.rewind, "clear_b": al.clear_b, "lock_taking_proposals": al.proposals.iter().map(|r| r.key()).collect::<Vec<_>>()},
-            "lattice_requests_per_state": lat.reqs.len(),
-            "max_depth": pr.max_depth, "completed_depth": completed_depth, "per_depth_frontier": per_depth,
-            "states": states, "transitions": transitions, "proposal_calls": evals, "setup_s": t_setup, "capped": cap,
+            "pending": env.pend.iter().map(|p| json!({"spends": p.spends.iter().map(|i| env.u.notes[*i].label).collect::<Vec<_>>(), "build_target": p.build_target, "expiry": p.expiry, "fee": p.fee,
+                       "outputs": p.outs.iter().map(|o| json!({"owner": format!("{:?}", o.owner), "value": o.value})).collect::<Vec<_>>()})).collect::<Vec<_>>(),
+            "setup_s": t_setup,
         }),
     );
-    if let Some(c) = &cap {
-        run.cap_hit(c);
-    } else if per_depth.len() > pr.max_depth && per_depth.last().copied().unwrap_or(0) > 0 {
-        run.cap_hit(&format!("depth bound {} reached with a non-empty frontier of {} states", pr.max_depth, per_depth.last().unwrap()));
-    }
-    run.sample(case_json(0, &[Op::Lock { owner: 0, set: 0, far: false }, Op::Advance { k: 1 }], Some(&lat.reqs[0]), pr.thorough));
-    run.sample(case_json(0, &[Op::Store { p: 0 }, Op::Advance { k: 41 }], Some(&lat.reqs[1]), pr.thorough));
-    run.sample(case_json(1, &[Op::FillGap, Op::Lock { owner: 1, set: 1, far: true }], None, pr.thorough));
+    run.section("lattices", json!({"core": {"requests": sh.lats[0].reqs.len(), "what": sh.lats[0].describe}, "quick": {"requests": sh.lats[1].reqs.len(), "what": sh.lats[1].describe}, "thorough": {"requests": sh.lats[2].reqs.len(), "what": sh.lats[2].describe}}));
+    run.sample(case_json(0, &[Op::Lock { owner: 0, set: 0, far: false }, Op::Advance { k: 1 }], Some(&sh.lats[1].reqs[0]), 1));
+    run.sample(case_json(0, &[Op::Store { p: 0 }, Op::Advance { k: 41 }], Some(&sh.lats[1].reqs[1]), 1));
+    run.sample(case_json(1, &[Op::FillGap, Op::Lock { owner: 1, set: 1, far: true }], None, 0));
 
-    let mut f = failures.into_inner().unwrap();
+    let mut f = std::mem::take(&mut *sh.failures.lock().unwrap());
     f.sort_by(|a, b| (a.ops.len(), a.start, &a.ops, &a.req).cmp(&(b.ops.len(), b.start, &b.ops, &b.req)));
     let total_fail = f.len();
     if total_fail > 0 {
@@ -520,9 +645,10 @@ pub fn run(args: &Args) -> i32 {
     }
     for x in f.into_iter().take(8) {
         let key = format!("{}|{}", ops_key(env, x.start, &x.ops), x.req.as_ref().map(|r| r.key()).unwrap_or("-".into()));
-        run.fail("state", key, x.msg, case_json(x.start, &x.ops, x.req.as_ref(), pr.thorough));
+        run.fail("state", key, x.msg, case_json(x.start, &x.ops, x.req.as_ref(), x.level));
     }
-    let debug_run = std::env::var("C08_DEPTH").is_ok();
+    // Vacuity guards. Outcomes that need depth 3 are demanded only when the search got that far.
+    let debug_run = std::env::var("C08_DEPTH").is_ok() || std::env::var("C08_NOEVAL").is_ok();
     let has = |k: &str| outcomes.contains_key(k) || run.failure_count() > 0 || debug_run;
     for k in [
         "transfer:ok",
@@ -532,19 +658,44 @@ pub fn run(args: &Args) -> i32 {
         "ok:locked-note-skipped",
         "ok:pending-spent-note-skipped",
         "ok:unconfirmed-note-skipped",
+        "ok:chain-spent-note-skipped",
         "ok:spent-through-overridable-lock",
-        "ok:used-note-with-expired-lock",
         "ok:steps=2",
-        "op:lock:refused:foreign-active-lock",
-        "op:lock:ok:same-owner-relock",
+        "ok:anchor-below-policy-depth",
+        "op:lock:ok",
         "op:store:ok",
-        "op:mine",
-        "state:has-expired-pending",
+        "op:advance",
+        "state:has-active-lock",
+        "state:has-unexpired-pending",
         "state:target-pre-nu6.3",
         "state:target-post-nu6.3",
+        "state:scan-gap-open",
     ] {
         run.require(has(k), &format!("outcome `{k}` never occurred"));
     }
-    run.require(run.outcomes_distinct() >= 20 || run.failure_count() > 0, "vacuous exploration");
+    if all_done {
+        for k in [
+            "ok:used-note-with-expired-lock",
+            "ok:used-input-of-expired-pending",
+            "ok:used-change-of-mined-pending",
+            "op:lock:refused:foreign-active-lock",
+            "op:lock:ok:same-owner-relock",
+            "op:lock:ok:over-expired-foreign-lock",
+            "op:unlock:ok",
+            "op:unlock:not-owner",
+            "op:clear:ok",
+            "op:mine",
+            "op:rewind:exact",
+            "op:store:unlocked-spent-input",
+            "state:has-expired-pending",
+            "state:pending-expiry-equals-target",
+            "state:lock-expiry-equals-target",
+            "state:has-expired-lock",
+            "state:pending-mined",
+        ] {
+            run.require(has(k), &format!("outcome `{k}` never occurred although the search completed"));
+        }
+    }
+    run.require(run.outcomes_distinct() >= 20 || run.failure_count() > 0 || debug_run, "vacuous exploration");
     run.finish(&replay)
 }
